@@ -170,13 +170,13 @@ class LMNN(MahalanobisMixin, TransformerMixin):
       raise ValueError('Must have one label per point.')
     self.labels_ = np.arange(len(unique_labels))
 
-    self.components_ = _initialize_components(output_dim, X, y, self.init,
-                                              self.verbose,
-                                              random_state=self.random_state)
     required_k = np.bincount(label_inds).min()
     if self.n_neighbors > required_k:
       raise ValueError('not enough class labels for specified k'
                        ' (smallest class has %d)' % required_k)
+    self.components_ = _initialize_components(output_dim, X, y, self.init,
+                                              self.verbose,
+                                              random_state=self.random_state)
 
     target_neighbors = self._select_targets(X, label_inds)
 
